@@ -24,6 +24,8 @@ Proof.
     destruct (alookup id (t1 (dbs s))); [|now injection H as <- _].
     destruct (good1 (height s) c); injection H as <- <-; [now elim Hr|reflexivity].
   - (* Unlock1 *) destruct (mem id (locks s)); injection H as <- <-; [now elim Hr|reflexivity].
+  - (* Open1 *) destruct (revisable1 (height s) (t1 (dbs s)) id) as [[]| |]; injection H as <- <-;
+      [now elim Hr|reflexivity|reflexivity].
   - (* Act *) destruct (alookup u (upds s)); [|discriminate].
     destruct (upd_apply (u_roots u0) a); discriminate.
   - (* Commit1 *) destruct (alookup u (upds s)); [|now injection H as <- _].
@@ -59,7 +61,7 @@ Lemma commit1_form s u nrev nfsize nmroot fault s' :
             (aset u {| u_cid := u_cid x; u_roots := u_roots x; u_old := u_roots x; u_acts := [] |} (upds s)).
 Proof.
   cbn [step]. destruct (alookup u (upds s)) as [x|]; [|discriminate]. intros H.
-  apply outcome_ok in H as (d' & E & ->); [|apply fok_m_commit1].
+  apply outcome_ok in H as (d' & E & ->); [|apply fok_g_commit1]. apply guarded_ok in E as [_ E].
   apply store_revise1_ok in E as (c & t' & ns' & Lc & R & ->). now exists x, c, t', ns'.
 Qed.
 
@@ -106,8 +108,8 @@ Lemma renew1_form s old new crev cfsize cmroot nrev nfsize nmroot nws mold fault
                  (aset new (nc1 nrev nfsize nmroot nws) (t1 (dbs s))))))))
            (cdel old (aset new (cache_get s old) (cache s))).
 Proof.
-  intros Lc. cbn [step]. intros H. apply outcome_ok in H as (d' & E & ->); [|apply fok_m_renew1].
-  unfold m_renew1 in E.
+  intros Lc. cbn [step]. intros H. apply outcome_ok in H as (d' & E & ->); [|apply fok_g_renew1].
+  apply guarded_ok in E as [_ E]. unfold m_renew1 in E.
   destruct (negb (cmroot =? 0)) eqn:E1; [discriminate|]. destruct (negb (cfsize =? 0)) eqn:E2; [discriminate|].
   destruct (negb (crev =? max_rev)) eqn:E3; [discriminate|].
   destruct (negb (nfsize =? sector_size * nlen (cache_get s old))) eqn:E4; [discriminate|].
@@ -197,15 +199,17 @@ Proof. intros L. cbv [store_get transaction mbind stmt ret lift]. now rewrite L.
 Lemma commit_accepted s u x nrev nfsize nmroot :
   Inv s -> alookup u (upds s) = Some x ->
   acts_stored (stored (dbs s)) (u_acts x) = true ->
+  (* WP-G: ... and whose contract is still revisable at the current tip *)
+  (forall c, alookup (u_cid x) (t1 (dbs s)) = Some c -> good1 (height s) c = true) ->
   snd (step s (Commit1 u nrev nfsize nmroot None)) = ORes (Ok tt) /\
   cache_get (fst (step s (Commit1 u nrev nfsize nmroot None))) (u_cid x) = u_roots x.
 Proof.
-  intros I L S. destruct (inv_upd meta s I u x L) as ((c & Lc & Rc) & Hold & Hfold & _).
+  intros I L S G. destruct (inv_upd meta s I u x L) as ((c & Lc & Rc) & Hold & Hfold & _).
   destruct (live_rows meta _ _ _ _ _ (inv_t1 meta s I) Lc Rc) as (Hrows & _).
   assert (Hle : nlen (u_old x) <= nsec (dbs s)).
   { pose proof (total_ge _ _ _ Lc) as Hg. rewrite Hrows, <- Hold, nlen_tbl_of in Hg.
     rewrite (inv_nsec meta s I). lia. }
-  cbn [step]. rewrite L. unfold m_commit1.
+  cbn [step]. rewrite L. unfold g_commit1. rewrite (guarded_pass _ _ _ _ c Lc (G c Lc)). unfold m_commit1.
   rewrite (store_revise1_run _ _ _ _ _ _ _ c (tbl_of (u_roots x))
              (nsec (dbs s) + nlen (u_roots x) - nlen (u_old x)) Lc).
   - cbn [outcome snd fst]. split; [reflexivity|].
@@ -217,14 +221,15 @@ Qed.
 Lemma commit_missing_rejected s u x nrev nfsize nmroot :
   Inv s -> alookup u (upds s) = Some x ->
   acts_stored (stored (dbs s)) (u_acts x) = false ->
+  (forall c, alookup (u_cid x) (t1 (dbs s)) = Some c -> good1 (height s) c = true) ->
   step s (Commit1 u nrev nfsize nmroot None) = (s, ORes (Err EOther)).
 Proof.
-  intros I L S. destruct (inv_upd meta s I u x L) as ((c & Lc & Rc) & Hold & Hfold & _).
+  intros I L S G. destruct (inv_upd meta s I u x L) as ((c & Lc & Rc) & Hold & Hfold & _).
   destruct (live_rows meta _ _ _ _ _ (inv_t1 meta s I) Lc Rc) as (Hrows & _).
   assert (Hle : nlen (u_old x) <= nsec (dbs s)).
   { pose proof (total_ge _ _ _ Lc) as Hg. rewrite Hrows, <- Hold, nlen_tbl_of in Hg.
     rewrite (inv_nsec meta s I). lia. }
-  cbn [step]. rewrite L. unfold m_commit1.
+  cbn [step]. rewrite L. unfold g_commit1. rewrite (guarded_pass _ _ _ _ c Lc (G c Lc)). unfold m_commit1.
   assert (E : store_revise1 (dbs s) (u_cid x) nrev nfsize nmroot (u_old x) (u_acts x) None = Err EOther).
   { cbv [store_revise1 transaction mbind stmt ret lift]. rewrite Lc, Hrows, <- Hold.
     now rewrite (replay_missing _ _ _ _ _ Hfold Hle S). }
@@ -386,6 +391,7 @@ Proof.
     destruct (alookup id0 (t1 (dbs s))); [|apply Same; reflexivity].
     destruct (good1 (height s) c0); apply Same; reflexivity.
   - cbn [step]. destruct (mem id0 (locks s)); apply Same; reflexivity.
+  - (* Open1 *) cbn [step]. destruct (revisable1 (height s) (t1 (dbs s)) id0) as [[]| |]; apply Same; reflexivity.
   - cbn [step]. destruct (alookup u (upds s)); [|apply Same; reflexivity].
     destruct (upd_apply (u_roots u0) a); apply Same; reflexivity.
   - (* Commit1 *)
@@ -397,15 +403,15 @@ Proof.
       destruct (id =? u_cid x) eqn:Ei; [|auto]. apply N.eqb_eq in Ei; subst id.
       destruct (inv_upd meta s I u x Lu) as ((c2 & Lc2 & Rc2) & _). congruence.
     + cbn [step] in E. destruct (alookup u (upds s)); [|discriminate]. unfold outcome in E.
-      destruct (m_commit1 s u0 nrev nfsize nmroot fault) as [[? ?]| |]; discriminate.
+      destruct (g_commit1 s u0 nrev nfsize nmroot fault) as [[? ?]| |]; discriminate.
     + cbn [step] in E. destruct (alookup u (upds s)); [|discriminate]. unfold outcome in E.
-      destruct (m_commit1 s u0 nrev nfsize nmroot fault) as [[? ?]| |]; discriminate.
+      destruct (g_commit1 s u0 nrev nfsize nmroot fault) as [[? ?]| |]; discriminate.
     + cbn [step] in E. destruct (alookup u (upds s)); [|discriminate]. unfold outcome in E.
-      destruct (m_commit1 s u0 nrev nfsize nmroot fault) as [[? ?]| |]; discriminate.
+      destruct (g_commit1 s u0 nrev nfsize nmroot fault) as [[? ?]| |]; discriminate.
     + cbn [step] in E. destruct (alookup u (upds s)); [|discriminate]. unfold outcome in E.
-      destruct (m_commit1 s u0 nrev nfsize nmroot fault) as [[? ?]| |]; discriminate.
+      destruct (g_commit1 s u0 nrev nfsize nmroot fault) as [[? ?]| |]; discriminate.
     + cbn [step] in E. destruct (alookup u (upds s)); [|discriminate]. unfold outcome in E.
-      destruct (m_commit1 s u0 nrev nfsize nmroot fault) as [[? ?]| |]; discriminate.
+      destruct (g_commit1 s u0 nrev nfsize nmroot fault) as [[? ?]| |]; discriminate.
   - (* Renew1 *)
     destruct D as (_ & _ & _ & (c1 & Lc1 & Rv1) & _).
     destruct (step s (Renew1 old new crev cfsize cmroot nrev nfsize nmroot nws mold fault)) as [s' ob] eqn:E.
@@ -460,6 +466,7 @@ Proof.
     destruct (alookup id0 (t1 (dbs s))); [|apply Same; reflexivity].
     destruct (good1 (height s) c0); apply Same; reflexivity.
   - cbn [step]. destruct (mem id0 (locks s)); apply Same; reflexivity.
+  - (* Open1 *) cbn [step]. destruct (revisable1 (height s) (t1 (dbs s)) id0) as [[]| |]; apply Same; reflexivity.
   - cbn [step]. destruct (alookup u (upds s)); [|apply Same; reflexivity].
     destruct (upd_apply (u_roots u0) a); apply Same; reflexivity.
   - (* Commit1 *)
@@ -597,12 +604,13 @@ Proof.
     destruct (alookup id (t1 (dbs s))); [|apply Same; reflexivity].
     destruct (good1 (height s) c); apply Same; reflexivity.
   - cbn [step]. destruct (mem id (locks s)); apply Same; reflexivity.
+  - cbn [step]. destruct (revisable1 (height s) (t1 (dbs s)) id) as [[]| |]; apply Same; reflexivity.
   - cbn [step]. destruct (alookup u (upds s)); [|apply Same; reflexivity].
     destruct (upd_apply (u_roots u0) a); apply Same; reflexivity.
   - cbn [step]. destruct (alookup u (upds s)) as [x|]; [|apply Same; reflexivity].
-    apply Out; [apply fok_m_commit1|]. intros d' E. unfold m_commit1 in E.
+    apply Out; [apply fok_g_commit1|]. intros d' E. apply guarded_ok in E as [_ E]. unfold m_commit1 in E.
     apply store_revise1_ok in E as (c & t' & ns' & _ & _ & ->). reflexivity.
-  - cbn [step]. apply Out; [apply fok_m_renew1|]. intros d' E. unfold m_renew1 in E.
+  - cbn [step]. apply Out; [apply fok_g_renew1|]. intros d' E. apply guarded_ok in E as [_ E]. unfold m_renew1 in E.
     repeat match type of E with (if ?b then _ else _) _ = _ => destruct b; [discriminate|] end.
     apply store_renew1_ok in E as (_ & c & _ & ->). reflexivity.
   - cbn [step]. apply Out; [apply fok_m_revise2|]. intros d' E. unfold m_revise2, mbind in E.
@@ -674,19 +682,27 @@ Proof.
   - (* Lock1 *) cbn [step]. destruct (mem id (locks s)); [reflexivity|].
     destruct (alookup id (t1 (dbs s))); [|reflexivity]. destruct (good1 (height s) c); reflexivity.
   - (* Unlock1 *) destruct D as (Hm & _). cbn [step]. now rewrite Hm.
+  - (* Open1 *) cbn [step]. unfold revisable1. destruct (alookup id (t1 (dbs s))) as [c0|]; [|reflexivity].
+    destruct (good1 (height s) c0); reflexivity.
   - (* Act *) cbn [step]. destruct (alookup u (upds s)); [|reflexivity].
     unfold upd_apply. destruct (upd_check (u_roots u0) a); reflexivity.
   - (* Commit1 *)
     assert (H0 : is_panic_obs (snd (step s (Commit1 u nrev nfsize nmroot None))) = false).
     { destruct (alookup u (upds s)) as [x|] eqn:L; [|cbn [step]; now rewrite L].
+      destruct (revisable1_cases (height s) (t1 (dbs s)) (u_cid x)) as [(c0 & Lc0 & G0 & _)|(e & Ee)].
+      2:{ cbn [step]. rewrite L. unfold g_commit1. now rewrite (guarded_refused _ _ _ _ _ Ee). }
+      assert (G : forall c, alookup (u_cid x) (t1 (dbs s)) = Some c -> good1 (height s) c = true) by (intros c Lc; congruence).
       destruct (acts_stored (stored (dbs s)) (u_acts x)) eqn:S.
-      - destruct (commit_accepted s u x nrev nfsize nmroot I L S) as [-> _]. reflexivity.
-      - rewrite (commit_missing_rejected s u x nrev nfsize nmroot I L S). reflexivity. }
+      - destruct (commit_accepted s u x nrev nfsize nmroot I L S G) as [-> _]. reflexivity.
+      - rewrite (commit_missing_rejected s u x nrev nfsize nmroot I L S G). reflexivity. }
     destruct fault as [k|]; [|exact H0].
     exact (none_no_panic_fault s (Commit1 u nrev nfsize nmroot None) k H0).
   - (* Renew1 *)
     assert (H0 : is_panic_obs (snd (step s (Renew1 old new crev cfsize cmroot nrev nfsize nmroot nws mold None))) = false).
-    { cbn [step]. unfold outcome, m_renew1.
+    { cbn [step]. unfold g_renew1.
+      destruct (revisable1_cases (height s) (t1 (dbs s)) old) as [(c0 & Lc0 & G0 & _)|(e & Ee)].
+      2:{ now rewrite (guarded_refused _ _ _ _ _ Ee). }
+      rewrite (guarded_pass _ _ _ _ c0 Lc0 G0). unfold outcome, m_renew1.
       repeat match goal with |- context [if ?b then _ else _] => destruct b; [reflexivity|] end.
       cbv [store_renew1 transaction mbind stmt ret lift].
       destruct (alookup new (t1 (dbs s))); [reflexivity|].
